@@ -2,6 +2,7 @@ import BarterModel.Lemmas.EngineScope
 import BarterModel.Lemmas.Review1Engine
 import BarterModel.Lemmas.KernelsAgree.FiltersActionsSM
 import BarterModel.Lemmas.EngineNetting
+import BarterModel.Lemmas.KernelsAgree.PositionSM
 /-!
 # C19 — Cancel-orders and close-positions commands act on exactly the filtered scope
 
@@ -598,6 +599,26 @@ theorem entering_is_the_position_model (t : BarterModel.Position.Trade) (hq : 0 
     carried (BarterModel.Position.PositionManager.init.update t).1.current
       = netFill none (ofPSide t.side) t.quantity :=
   enter_is_position_model t hq
+
+/-- … and of the SOURCE: `netFill` is `Position::update_from_trade` AS REGENERATED FROM /repo ON THIS RUN
+(`Generated.Machines.Position.update_from_trade`, tools/rust2lean_sm.py, group `position_sm`) projected on
+(side, quantity_abs), for every position and every trade of positive quantity on the same instrument: the chain
+generated machine = C02 model (`KernelsAgree.PositionSM.update_from_trade_agrees`) = engine-level netting. -/
+theorem netting_is_the_source (p : BarterModel.KernelsAgree.PositionSM.G.Position)
+    (t : BarterModel.KernelsAgree.PositionSM.G.Trade)
+    (hi : p.instrument = t.instrument) (hq : 0 < t.quantity) :
+    ((p.update_from_trade t).1.map fun p' =>
+        (ofPSide (BarterModel.KernelsAgree.PositionSM.ofSide p'.side), p'.quantity_abs))
+      = netFill (some (ofPSide (BarterModel.KernelsAgree.PositionSM.ofSide p.side), p.quantity_abs))
+          (ofPSide (BarterModel.KernelsAgree.PositionSM.ofSide t.side)) t.quantity := by
+  open BarterModel.KernelsAgree.PositionSM in
+  have h := update_from_trade_agrees p t
+  open BarterModel.KernelsAgree.PositionSM in
+  have h2 := netFill_is_position_model (ofPos p) (ofTrade t) (by simpa [ofPos, ofTrade] using hi)
+    (by simpa [ofTrade] using hq)
+  rw [h] at h2
+  open BarterModel.KernelsAgree.PositionSM in
+  simpa [carried, Option.map_map, Function.comp_def, ofPos, ofTrade] using h2
 
 /-- applying the resolved update leaves the instrument with the netted position -/
 theorem fill_update_sets_net (e : Eng) (i : Nat) (side : Side) (q : Rat) (s : Instr)
